@@ -441,6 +441,13 @@ def case_pam(B, cfg):
         blocks.append(sorted(tags)[0] if tags else '?')
     B.fact('samples grouped model by model (IDs shifted by the previous '
            'counts)', blocks == sorted(blocks), repr(blocks))
+    # which model every draw selected on this path: the table holds exactly
+    # that many samples of each model
+    drawn = [c for c, p in rng.choices if p is not None]
+    if drawn:
+        want_blocks = ['Y%d' % int(k) for k in sorted(drawn[0])]
+        B.fact('every sample comes from the model its draw selected',
+               blocks == want_blocks, '%r vs %r' % (blocks, want_blocks))
     w_used = [p for p in rng.choice_weights if p is not None]
     B.fact('model choice uses the normalised weights',
            len(w_used) >= 1 and np.allclose(
